@@ -116,10 +116,12 @@ LEVEL_TEXT.update({
                               "format's fields (ext_fits). Recovery after a crash establishes Inv' (DiskOk with a relaxed seal bound; counterexample to the strict one is proved)."),
  "C08": dict(text="Theorems C08_scan_exact (orphans / missing / corrupted / invalid / staging lists are exactly what directory and index imply, for arbitrary planted files), "
                   "C08_cleanup_restores_C07 (delete_orphans removes exactly the reported garbage, keeps every referenced blob, restores exactness), "
-                  "C08_cleanup_rechecks_the_live_index. K3: planted garbage at every level + crash images, scan and clean-up of the real library vs the model and vs the "
+                  "C08_cleanup_rechecks_the_live_index, C08_cleanup_racing_with_commits_never_harms (concurrent model: no step of any thread, an orphan deletion included, removes a "
+                  "referenced or protected blob, under every schedule). K3: planted garbage at every level + crash images, scan and clean-up of the real library vs the model and vs the "
                   "directory listing; K6: clean-up racing puts of orphaned content under model-chosen and model-free schedules (oracle: no indexed key without its blob).",
-             note=BASE_NOTE + "Partial: the race clause (clean-up vs concurrent put of the same content) is decided by the concurrent correspondence and the concurrent model's "
-                              "invariant (props/C04.v when claimed), not by these sequential theorems."),
+             note=BASE_NOTE + "Scan and clean-up theorems are sequential; the race clause (clean-up vs concurrent put of the same content) is the concurrent model's invariant "
+                              "(restated as C08_cleanup_racing_with_commits_never_harms) plus the concurrent correspondence. quarantine_orphans / delete_orphan follow the same "
+                              "protocol in the code and are modelled sequentially only."),
 })
 for _p in ["C03", "C08"]:
     NOT_APPLICABLE.pop(_p, None)
